@@ -73,15 +73,18 @@ func runC19(seed int64, count int, replay string) {
 		emit("#case concurrent-owners")
 		p := pbytes.New(65536)
 		var held sync.Map // backing array -> holder
-		var gets, double int64
+		var gets, double, short int64
 		var wg sync.WaitGroup
 		for g := 0; g < 8; g++ {
 			wg.Add(1)
 			go func(g int) {
 				defer wg.Done()
 				for i := 0; i < 6000; i++ {
-					size := []int{16, 16, 1024, 1500, 65536}[(g+i)%5]
+					size := []int{16, 16, 1024, 1500, 65536, 100, 5000}[(g+i)%7]
 					b := p.Get(size)
+					if cap(*b) < size {
+						atomic.AddInt64(&short, 1)
+					}
 					ptr := unsafe.Pointer(unsafe.SliceData((*b)[:cap(*b)]))
 					atomic.AddInt64(&gets, 1)
 					if _, loaded := held.LoadOrStore(ptr, g); loaded {
@@ -97,7 +100,7 @@ func runC19(seed int64, count int, replay string) {
 			}(g)
 		}
 		wg.Wait()
-		emit("C19 conc 8 %d %d", gets, double)
+		emit("C19 conc 8 %d %d %d", gets, double, short)
 	}
 	for h := 0; h < count; h++ {
 		max := c19Maxes[rng.Intn(len(c19Maxes))]
